@@ -546,4 +546,12 @@ theorem c13_x_createTokenTableEntry : SV.Extracted.C13.createTokenTableEntry =
 theorem c13_x_tokenTableBlockPack : SV.Extracted.C13.tokenTableBlockPack =
     ["p.PutStringWithSize(t.field)", "p.PutUint32(uint32(len(t.entries)))", "range _, entry := t.entries", "entry.Pack(p)"] := rfl
 
+/-- a value is located inside its physical block through 32-bit offsets and a 32-bit length prefix (`sizeOfUint32`): no narrower width anywhere, a block may be far larger than 64 KiB -/
+theorem c13_x_blockGetValByTID : SV.Extracted.C13.blockGetValByTID =
+    ["valIndex := b.entry.getIndexInTokensBlock(tid)", "offset := binary.LittleEndian.Uint32(b.offsets[valIndex*sizeOfUint32:])", "l := binary.LittleEndian.Uint32(b.payload[offset:])", "offset += sizeOfUint32", "return b.payload[offset : offset+l]"] := rfl
+
+/-- `unpack` records one 32-bit offset per value (`PutUint32`), skipping the `MaxUint32` run markers -/
+theorem c13_x_blockUnpack : SV.Extracted.C13.blockUnpack =
+    ["payload := data", "buf := bytespool.Acquire(4 * int(b.entry.ValCount))", "offsetsPacker := packer.NewBytesPacker(buf.B[:0])", "for i := 0; len(data) != 0; i++", "i := 0", "i++", "l := binary.LittleEndian.Uint32(data)", "data = data[sizeOfUint32:]", "offset += sizeOfUint32", "if l == math.MaxUint32", "if l > uint32(len(data))", "return fmt.Errorf(\"wrong field block for token %d, in pos %d\", i, offset)", "offsetsPacker.PutUint32(offset - sizeOfUint32)", "data = data[l:]", "offset += l", "b.payload = payload", "b.offsets = append([]byte{}, offsetsPacker.Data...)", "return nil"] := rfl
+
 end SV.Props.C13
